@@ -161,7 +161,8 @@ Eval(e, cx, k) ==
       [] e.k = "fn" -> IF e.n = "err" THEN
                             \* ERR identifies the kind of the last error: the code of the error class the
                             \* cause demands (numbering taken from the tree, like the opcodes)
-                            (IF cx.err = "" THEN E(OOM, k) ELSE V(IntV(cx.p.errcodes[cx.err]), k))
+                            \* (0 while no error has occurred)
+                            (IF cx.err = "" THEN V(IntV(0), k) ELSE V(IntV(cx.p.errcodes[cx.err]), k))
                        ELSE IF e.n \in {"lbound", "ubound"} THEN
                             LET pre == BasePrefix(cx, e.arr)
                                 bs == BoundsOf(cx, pre, e.rank)
